@@ -87,7 +87,7 @@ def gen(seed: int, tier: str, idx=None):
         s = rng.randrange(len(m.sheets))
         t = rng.randrange(len(m.sheets[s].tables))
         tm = m.sheets[s].tables[t]
-        k = rng.choices(["write", "add_table", "style", "add_row_gap", "format"], [14, 1, 2, 1, 4])[0]
+        k = rng.choices(["write", "add_table", "style", "add_row_gap", "format", "formula"], [14, 1, 2, 1, 4, 2])[0]
         if k == "write":
             g.emit({"op": "write", "d": 0, "s": s, "t": t, "r": g.index(tm.nrows), "c": g.index(tm.ncols), "v": V.enc(g.value())})
         elif k == "add_table":
@@ -96,6 +96,12 @@ def gen(seed: int, tier: str, idx=None):
             rr, cc = g.index(tm.nrows), g.index(tm.ncols)
             g.emit({"op": "write", "d": 0, "s": s, "t": t, "r": rr, "c": cc, "v": V.enc(V.gen_value(rng, {"i": 3, "f": 3, "b": 1, "s": 1, "dt": 1}, False))})
             g.emit({"op": "set_format" if rng.random() < 0.75 else "custom_format", "d": 0, "s": s, "t": t, "r": rr, "c": cc, "k": rng.randrange(1000), "name": None})
+        elif k == "formula":
+            rr, cc = g.index(tm.nrows), g.index(tm.ncols)
+            g.emit({"op": "write", "d": 0, "s": s, "t": t, "r": rr, "c": cc, "v": V.enc(V.gen_value(rng, {"i": 3, "f": 3}, False))})
+            g.emit({"op": "set_formula", "d": 0, "s": s, "t": t, "r": rr, "c": cc, "k": rng.randrange(1000)})
+            if rng.random() < 0.4:
+                g.emit({"op": "set_format", "d": 0, "s": s, "t": t, "r": rr, "c": cc, "k": rng.randrange(1000), "kind": rng.choice(["slider", "stepper", "popup_num", "number"])})
         elif k == "style":
             g.emit({"op": "add_style", "d": 0, "attrs": gen_attrs(rng), "name": None})
             g.emit({"op": "set_style", "d": 0, "s": s, "t": t, "r": rng.randrange(tm.nrows), "c": rng.randrange(tm.ncols), "style": rng.randrange(8)})
